@@ -275,8 +275,15 @@ def toast_tile_for_point(depth, lat, lon, coordsys=ToastCoordinateSystem.ASTRONO
     if depth == 0:
         return Tile(Pos(n=0, x=0, y=0), (None, None, None, None), False)
 
+    # The level-1 containment test works on the longitude intervals of the
+    # astronomical layout; the planetary layout is rotated by 180 degrees.
+    lon1 = lon
+
+    if coordsys == ToastCoordinateSystem.PLANETARY:
+        lon1 = (lon + np.pi) % TWOPI
+
     for tile in _create_level1_tiles(coordsys):
-        if _toast_tile_containment_score(tile, lat, lon) == 0.0:
+        if _toast_tile_containment_score(tile, lat, lon1) == 0.0:
             break
 
     while tile.pos.n < depth:
